@@ -202,8 +202,10 @@ impl Scenario for PairScn {
             pair_provide(w, &h.pair, ALICE, r.first, None, None).unwrap_or_else(|e| panic!("root deposit failed: {:?} {:?}", r, e));
             if r.pre_swaps {
                 let (res, _) = reserves(w, &h).unwrap();
-                pair_swap(w, &h.pair.addr, BOB, &h.pair.assets[0], (res[0] / 50).max(1), loose_belief(), None, None).expect("pre swap 0");
-                pair_swap(w, &h.pair.addr, CAROL, &h.pair.assets[1], (res[1] / 40).max(1), loose_belief(), None, None).expect("pre swap 1");
+                // (not fatal when rejected: the root is then explored without pending fees, and the vacuity counters
+                // of the check notice if no root has any)
+                let _ = pair_swap(w, &h.pair.addr, BOB, &h.pair.assets[0], (res[0] / 50).max(1), loose_belief(), None, None);
+                let _ = pair_swap(w, &h.pair.addr, CAROL, &h.pair.assets[1], (res[1] / 40).max(1), loose_belief(), None, None);
             }
         }
         let locked = w.cw20_balance(&h.pair.lp, &h.pair.addr);
